@@ -510,6 +510,8 @@ impl<'a> TransactionRebase<'a> {
                 // row ids are still valid, so we allow this optimistically.
                 Operation::Delete { .. } | Operation::Update { .. } => Ok(()),
                 // Merge, reserve, and project don't change row ids, so this should be fine.
+                // (Whether the indexed fields survived a concurrent drop or cast is checked
+                // against the current schema when the manifest is built.)
                 Operation::Merge { .. } => Ok(()),
                 Operation::ReserveFragments { .. } => Ok(()),
                 Operation::Project { .. } => Ok(()),
